@@ -425,13 +425,19 @@ the heap of holders explicitly so that "copies are independent" is a statement a
 (no two Any objects share a holder), not an assumption. -/
 
 inductive Tag where
-  | int | float | string | long | noeq | trk
+  | int | float | string | long | noeq | trk | key
 deriving DecidableEq, Repr
 
 /-- `traits::HasOperatorEqualsT<T>::value` for the payload types of the harness -/
 def Tag.hasEq : Tag → Bool
   | .noeq => false
   | _ => true
+
+/-- the payload type's own `operator==` on value tokens: identity for the ordinary types; the `key` payload
+    (a record whose `==` compares only its key field, token / 4) shows that "equal" is coarser than "identical" -/
+def Tag.valEq : Tag → Nat → Nat → Bool
+  | .key, x, y => x / 4 == y / 4
+  | _, x, y => x == y
 
 inductive AErr where
   | danglingHandle  -- use or release of a holder that is not allocated (use after free, double free)
@@ -562,7 +568,7 @@ def anyGet (σ : AWorld) (i : Nat) (t : Tag) : GetRes :=
 def isSame (c : Tag × Nat) (other : Option (Tag × Nat)) : Bool :=
   if c.1.hasEq then
     match other with
-    | some (t, x) => t == c.1 && x == c.2
+    | some (t, x) => t == c.1 && c.1.valEq x c.2
     | none => false
   else false
 
